@@ -379,7 +379,7 @@ class UpdateElem(Contract_):
 
     def apply(self, ex, args, kwargs, frame, node):
         ec = ex.inputs["self"].fields["ec"]
-        ex.check("register_sync_group[one table entry per group]",
+        ex.check(f"{ex.target_short}.register_sync_group[one table entry per group]",
                  ec.fields["g_registered"] is None, "the group is entered into the program table once")
         ec.fields["g_registered"] = args[1]
         return 0
@@ -393,7 +393,7 @@ class DeleteElem(Contract_):
         ec = ex.inputs["self"].fields["ec"]
         reg = ec.fields["g_registered"]
         from vc.pyvc import ops
-        ex.check("register_sync_group[unregisters exactly its own entry]",
+        ex.check(f"{ex.target_short}.register_sync_group[unregisters exactly its own entry]",
                  False if reg is None else ops.values_equal(ex, reg, args[1]),
                  "the key deleted from the program table is the key the group was registered under")
         ec.fields["g_registered"] = None
